@@ -8,14 +8,21 @@
 static q120_ntt_precomp* NTT[17][2];
 static q120_ntt_precomp* INTT[17][2];
 static void make_tables(void) {
-  for (int k = 16; k >= 0; k--) {
+  // which table is the first one the process builds depends on the partition (every partition is a fresh process):
+  // forward or inverse first, largest or smallest first - all of them are used by the cases below
+  const int inv_first = (G.part >> 1) & 1, asc = (G.part >> 2) & 1;
+  for (int j = 0; j <= 16; j++) {
+    const int k = asc ? j : 16 - j;
+    if (inv_first) INTT[k][0] = q120_new_intt_bb_precomp(1ull << k);
     NTT[k][0] = q120_new_ntt_bb_precomp(1ull << k);
-    INTT[k][0] = q120_new_intt_bb_precomp(1ull << k);
+    if (!inv_first) INTT[k][0] = q120_new_intt_bb_precomp(1ull << k);
   }
-  for (int k = 0; k <= 16; k++) {
+  for (int j = 0; j <= 16; j++) {
+    const int k = asc ? 16 - j : j;
     INTT[k][1] = q120_new_intt_bb_precomp(1ull << k);
     NTT[k][1] = q120_new_ntt_bb_precomp(1ull << k);
   }
+  cntf("first_table_of_process:%s,%s", 1, inv_first ? "inverse" : "forward", asc ? "n=1" : "n=65536");
 }
 static void free_tables(void) {
   for (int k = 0; k <= 16; k++)
